@@ -4,6 +4,7 @@ import PandoraModel.Properties.C13Util
 import PandoraModel.Properties.C13Median
 import PandoraModel.Properties.C13Refinement
 import PandoraModel.Properties.C13CrossCheck
+import PandoraModel.Properties.C13MatchingCost
 open Pandora.C13
 #print axioms Local.comp
 #print axioms Local.pair
@@ -36,3 +37,16 @@ open Pandora.C13
 #print axioms ccStep_equivariant
 #print axioms check_is_ccStep
 #print axioms cc_crop_eq_whole
+#print axioms valueSpec_transport
+#print axioms specCell_eq_core
+#print axioms coreCell_transport
+#print axioms mcCellStep_local
+#print axioms mcCellStep_equivariant
+#print axioms specCell_is_mcCellStep
+#print axioms costVolume_is_mcCellStep
+#print axioms mc_crop_eq_whole
+#print axioms costVolume_crop_eq_whole
+#print axioms mcConeK_le
+#print axioms mcRowStep_local
+#print axioms mcRowStep_equivariant
+#print axioms costVolume_is_mcRowStep
